@@ -741,6 +741,113 @@ struct Judge {
     return v;
   }
 
+  // ---- C12 sessions: ONE BuildSystemFrontend runs a sequence of builds over a directory-tree input and a
+  // directory-structure input that both carry content-exclusion-patterns ["*.tmp"]; between the builds one edit from a
+  // small alphabet is made in BOTH directories.  T (tree input) must run iff a name the patterns do not hide was changed
+  // in any way; S (structure input) iff a visible name was added / removed; hidden names never matter.
+  //   edits: n nothing | h rewrite hidden sub/scratch.tmp | H add hidden top-level junk<k>.tmp | r remove the hidden file added last
+  //          v rewrite visible sub/data.txt (other size) | V rewrite visible keep.txt | a add visible sub/new<k>.txt
+  static std::vector<std::string> sessionAlphabetWords(int maxLen) {
+    const std::string alpha = "nhHrvVa";
+    std::vector<std::string> out, level{""};
+    for (int l = 1; l <= maxLen; ++l) {
+      std::vector<std::string> next;
+      for (auto& w : level)
+        for (char c : alpha) next.push_back(w + c);
+      out.insert(out.end(), next.begin(), next.end());
+      level.swap(next);
+    }
+    return out;
+  }
+  void runSession(const std::string& word) {
+    const std::string spec = "ks|" + word;
+    const std::string what = "one BuildSystemFrontend, builds separated by the edits '" + word + "' (tree/ and stree/ with content-exclusion-patterns [*.tmp])";
+    Sandbox sb;
+    sb.create(gScratch + "/" + std::to_string(++sandboxNo));
+    if (chdir(sb.root.c_str()) != 0) fatal("chdir sandbox");
+    sb.write("s1", "s1:0");
+    for (const char* d : {"tree", "stree"}) {
+      std::string D = d;
+      if (mkdir(sb.p(D).c_str(), 0755) != 0 || mkdir(sb.p(D + "/sub").c_str(), 0755) != 0) fatal("mkdir tree");
+      sb.write(D + "/keep.txt", "k0");
+      sb.write(D + "/sub/data.txt", "d0");
+      sb.write(D + "/sub/scratch.tmp", "t0");
+    }
+    std::string y = "client:\n  name: basic\ntargets:\n  \"all\": [\"o1\", \"o2\"]\nnodes:\n"
+                    "  \"tree/\":\n    content-exclusion-patterns: [\"*.tmp\"]\n"
+                    "  \"stree/\":\n    is-directory-structure: true\n    content-exclusion-patterns: [\"*.tmp\"]\ncommands:\n";
+    y += "  \"T\":\n    tool: shell\n    inputs: [\"tree/\"]\n    outputs: [\"o1\"]\n    args: " + yqList({gVcmd, "cat", "T", "o1", "--", "s1"}) + "\n";
+    y += "  \"S\":\n    tool: shell\n    inputs: [\"stree/\"]\n    outputs: [\"o2\"]\n    args: " + yqList({gVcmd, "cat", "S", "o2", "--", "s1"}) + "\n";
+    sb.rawWrite("build.llbuild", y);
+    res.count("evaluations");
+    res.count("session_scenarios");
+    {
+      BuildObs o;
+      llvm::SourceMgr sm;
+      BuildSystemInvocation inv;
+      inv.buildFilePath = "build.llbuild";
+      inv.dbPath = "build.db";
+      inv.useSerialBuild = true;
+      inv.schedulerLanes = 1;
+      inv.environment = kEnv;
+      KGDelegate del(sm, o);
+      BuildSystemFrontend fe(del, inv, createLocalFileSystem());
+      auto build = [&](Strs& ran) {
+        o.failures = 0; o.errors = 0; o.output.clear();
+        sb.newExec();
+        ++gBuilds;
+        bool r = fe.build("all");
+        ran = sb.newExec();
+        return r && !o.failures && !o.errors;
+      };
+      Strs ran;
+      if (!build(ran)) fatal(what + ": the first build failed\n" + o.output);
+      std::sort(ran.begin(), ran.end());
+      if (ran != Strs{"S", "T"}) fatal(what + ": the first build ran [" + join(ran, " ") + "]");
+      int junk = 0, added = 0, ver = 0;
+      std::vector<int> junkAlive;
+      std::string done;
+      bool nontrivial = false;
+      for (char e : word) {
+        done += e;
+        bool wantT = false, wantS = false, applicable = true;
+        ++ver;
+        for (const char* d : {"tree", "stree"}) {
+          std::string D = d;
+          switch (e) {
+          case 'n': break;
+          case 'h': sb.write(D + "/sub/scratch.tmp", "t" + std::string((size_t)(ver % 7) + 1, 'x')); break;
+          case 'H': sb.write(D + "/junk" + std::to_string(junk) + ".tmp", "j"); break;
+          case 'r': if (junkAlive.empty()) applicable = false; else sb.remove(D + "/junk" + std::to_string(junkAlive.back()) + ".tmp"); break;
+          case 'v': sb.write(D + "/sub/data.txt", "d" + std::string((size_t)(ver % 7) + 1, 'y')); wantT = true; break;
+          case 'V': sb.write(D + "/keep.txt", "k" + std::string((size_t)(ver % 7) + 1, 'z')); wantT = true; break;
+          case 'a': sb.write(D + "/sub/new" + std::to_string(added) + ".txt", "n"); wantT = true; wantS = true; break;
+          }
+        }
+        if (e == 'H') junkAlive.push_back(junk++);
+        if (e == 'r' && applicable) junkAlive.pop_back();
+        if (e == 'a') ++added;
+        if (!applicable) { res.count("session_words_not_applicable"); break; }
+        if (!build(ran)) {
+          res.violate("C12.ks-session-build-failed", what + ": the build after '" + done + "' failed: " + o.output.substr(0, 200), spec);
+          break;
+        }
+        res.count("session_builds_judged");
+        bool gotT = std::find(ran.begin(), ran.end(), "T") != ran.end(), gotS = std::find(ran.begin(), ran.end(), "S") != ran.end();
+        if (verbose) printf("  after '%s': ran [%s] (want T=%d S=%d)\n", done.c_str(), join(ran, " ").c_str(), (int)wantT, (int)wantS);
+        const char* kind = e == 'n' ? "nothing-changed" : (e == 'h' || e == 'H' || e == 'r') ? "only-hidden-names-changed" : e == 'a' ? "visible-name-added" : "visible-content-changed";
+        if (gotT && !wantT) res.violate(std::string("C12.ks-tree-consumer-reran-") + kind, what + ": after '" + done + "' the consumer of the directory-tree input re-executed (ran [" + join(ran, " ") + "])", spec);
+        if (gotS && !wantS) res.violate(std::string("C12.ks-structure-consumer-reran-") + kind, what + ": after '" + done + "' the consumer of the directory-structure input re-executed (ran [" + join(ran, " ") + "])", spec);
+        if (!gotT && wantT) res.violate(std::string("C12.ks-tree-consumer-not-rerun-") + kind, what + ": after '" + done + "' the consumer of the directory-tree input did not re-execute", spec);
+        if (!gotS && wantS) res.violate(std::string("C12.ks-structure-consumer-not-rerun-") + kind, what + ": after '" + done + "' the consumer of the directory-structure input did not re-execute", spec);
+        if (wantT || wantS) nontrivial = true;
+      }
+      if (nontrivial) res.count("distinct_nontrivial");
+    }
+    if (chdir("/") != 0) {}
+    sb.destroy();
+  }
+
   struct Reuse { int desc; int fail; int kind; int slow; int lanes; int edit; long cancelAt; };
   std::string specOf(const Reuse& r) const {
     const Desc& d = descs[r.desc];
@@ -1069,7 +1176,7 @@ unsigned popcount(unsigned m) { unsigned n = 0; for (; m; m &= m - 1) ++n; retur
 int main(int argc, char** argv) {
   vj::Args args;
   args.parse(argc, argv);
-  if (args.prop != "C10" && args.prop != "C05") { fprintf(stderr, "kgx: only --prop C10 or C05\n"); return 2; }
+  if (args.prop != "C10" && args.prop != "C05" && args.prop != "C12") { fprintf(stderr, "kgx: only --prop C10, C05 or C12\n"); return 2; }
   if (args.nshards < 1 || args.shard < 0 || args.shard >= args.nshards) { fprintf(stderr, "kgx: bad shard\n"); return 2; }
 
   // the helper command
@@ -1117,6 +1224,44 @@ int main(int argc, char** argv) {
       "(no database) once per distinct description text per process; a disagreement is a harness error (exit 3)",
       "C10 keep-going: not covered here: cancellation (SIGINT) - worldx C10i; failures by missing undeclared input / unwritable output - worldx; mixed failure kinds inside one subset; "
       "failing builds at a later index than the second build of the history"};
+
+  // ------------------------------------------------------------ C12: sessions of one frontend over filtered directory inputs
+  if (args.prop == "C12") {
+    res.assumptions = {
+        "C12 sessions: a long-lived client - ONE BuildSystemFrontend (engine, rules, file system object) serves every build of a session on one SQLite database; one lane",
+        "C12 sessions: both directory inputs carry content-exclusion-patterns [\"*.tmp\"]; edits are made with the logical clock of harness/worldx (distinct mtimes), rewrites change the size; "
+        "'re-executed' = the consumer's process started (vcmd exec.log)",
+        "C12 sessions: expectation per build - the tree consumer runs iff a name the patterns do not hide was rewritten or added since the previous build, the structure consumer iff a visible name "
+        "was added; hidden names (rewritten, added at the top, removed) and no edit at all re-run nothing"};
+    if (!args.replaySpec.empty()) {
+      std::string s = args.replaySpec;
+      size_t hash = s.find(" #");
+      if (hash != std::string::npos) s = s.substr(0, hash);
+      if (s.compare(0, 3, "ks|") != 0) { fprintf(stderr, "kgx: bad replay spec '%s'\n", args.replaySpec.c_str()); wipe(gScratch, true); return 3; }
+      J.verbose = true;
+      J.runSession(s.substr(3));
+      for (auto& v : res.violations) printf("VIOLATION %s: %s\n", v.cls.c_str(), v.what.c_str());
+      if (res.violations.empty()) printf("no violation\n");
+      wipe(gScratch, true);
+      res.write(args.out);
+      return res.violations.empty() ? 0 : 1;
+    }
+    auto words = Judge::sessionAlphabetWords(thorough ? 5 : 4);
+    if (args.shard == 0) res.counters["work_items_total"] = (long long)words.size();
+    for (size_t i = 0; i < words.size(); ++i) {
+      if ((int)(i % (size_t)args.nshards) != args.shard) continue;
+      if (args.overBudget()) { res.exhaustive = false; res.count("work_items_skipped_budget"); continue; }
+      J.runSession(words[i]);
+    }
+    res.count("builds", gBuilds);
+    res.strings["rule"] = std::string("session = a word of <= ") + (thorough ? "5" : "4") + " edits over {n nothing, h rewrite a hidden file two levels down, H add a hidden file at the top, r remove it again, "
+        "v rewrite a visible file two levels down, V rewrite a visible top-level file, a add a visible file}: first build, then one build after every edit, all by ONE BuildSystemFrontend; every word is "
+        "enumerated (7 + 49 + 343 + 2401" + (thorough ? " + 16807" : "") + "); evaluations = sessions, distinct_nontrivial = sessions in which at least one build had to re-run a consumer";
+    if (chdir("/") != 0) {}
+    wipe(gScratch, true);
+    if (!res.write(args.out)) { fprintf(stderr, "kgx: cannot write %s\n", args.out.c_str()); return 2; }
+    return res.violations.empty() ? 0 : 1;
+  }
 
   // ------------------------------------------------------------ C05: reuse scenarios
   if (args.prop == "C05" || args.extra == "reuse") {
